@@ -66,6 +66,7 @@ type shape struct {
 	n     int
 	edges [][]int // edges[i] = ordered import list (may contain duplicates)
 	name  string
+	depth int // a depth limit that belongs to the template (0 = drawn at random)
 }
 
 func randomShape(r *core.Rand, n int) shape {
@@ -89,7 +90,10 @@ func randomShape(r *core.Rand, n int) shape {
 
 // templates that make rare conditions common
 func templateShape(r *core.Rand) shape {
-	switch r.Intn(9) {
+	switch r.Intn(10) {
+	case 9: // a file on the last level inside a depth limit imports a shallower file: its
+		// import list still decides the merge order (0->1,4,3 ; 1->2 ; 2->3 ; limit 3)
+		return shape{n: 5, name: "back-edge-at-the-limit", edges: [][]int{{1, 4, 3}, {2}, {3}, {}, {}}, depth: 3}
 	case 0: // short and long path to one file, with a tail below it
 		// 0->1->2->3->4 ; 0->5->3 ; (design experiment F-C05-1)
 		return shape{n: 6, name: "short-long", edges: [][]int{{1, 5}, {2}, {3}, {4}, {}, {3}}}
@@ -290,6 +294,9 @@ func Gen(seed uint64, faulty bool) *Workload {
 	if w.Family == "plain" || w.Family == "divergent" {
 		if r.Chance(0.4) {
 			w.MaxDepth = r.Range(1, n+1)
+		}
+		if sh.depth > 0 && r.Chance(0.7) {
+			w.MaxDepth = sh.depth + r.Intn(2) // the template's own limit, or one more
 		}
 	}
 
